@@ -84,7 +84,13 @@ def unit(u) -> Stats:
     for comp in COMPUTERS:
         chk = Tight(n, v, tol, witnesses=(n <= 4), polytope_unknown=poly_unknown)
         lr = LatticeRun(n, v, comp, chk, st, tag)
-        lr.fresh(Ks=(list(A.layered_knowledge(n, 2)) if n >= 5 else None))
+        if n <= 4:
+            Ks = None
+        elif n == 5:
+            Ks = list(A.layered_knowledge(n, 2))
+        else:
+            Ks = list(A.layered_knowledge(n, 1)) + (list(A.distance2_knowledge(n)) if "pairs" in modes else [])
+        lr.fresh(Ks=Ks)
         if "euler" in modes:
             lr.euler()
         st.nontrivial += len(chk.nontrivial)
@@ -148,6 +154,11 @@ def units(run: Run):
             continue
         gv = A.shifted(g, (1, -1, 2, 0, 3)) if i % 4 < 2 else tuple(a + b for a, b in zip(g, convex5))
         us.append((5, f"pairgraph#{i}", gv, (), 0.0, 0))
+    for n in ((6,) if quick else (6, 7)):
+        for tag, gv in A.larger_n_samples(n):
+            if quick and not tag.startswith(("matching-shift", "path-shift", "two-cliques+")):
+                continue
+            us.append((n, f"n{n}:{tag}", gv, ("pairs",) if (n == 6 and not quick) else (), 0.0, 0))
     width = 2 if quick else 8
     for name in gens.SA_FAMILIES:
         for n in ((3, 4) if quick else (3, 4)):
@@ -165,7 +176,7 @@ def run(run: Run) -> None:
                 "attained by explicit superadditive completions (O2a), and for all K with few unknown coalitions ALL integer completions in the "
                 "enclosing box are enumerated and their coordinate-wise extremes compared (O2b). non-trivial = distinct (game, computer, K) with "
                 "a non-degenerate interval")
-    run.bounds = {"n": [3, 4, 5], "polytope_unknown_max": 3 if run.quick else 4, "units": len(us), "computers": list(COMPUTERS)}
+    run.bounds = {"n": [3, 4, 5, 6] if run.quick else [3, 4, 5, 6, 7], "polytope_unknown_max": 3 if run.quick else 4, "units": len(us), "computers": list(COMPUTERS)}
     run.assumptions = ["O2b enumerates integer completions only (the polytope has integral extreme coordinates here because O1 is integral); "
                        "it validates O1 against the definition, O1 then decides every (game, K, S)",
                        "float generator games: O1 in exact rationals on the float inputs, compared within the G2 tolerance"]
